@@ -111,7 +111,8 @@ def encode(e, tid, n):
                  blen=top[2] if isinstance(top[2], int) else -1, brange=_s(top[3]),
                  retry=e.get("retry", 0) if isinstance(e.get("retry", 0), int) else 0,
                  shared=bool(e.get("shared", False)), fn=e.get("fn", ""), callback=bool(e.get("callback", False)),
-                 smid=_s(e.get("smid", "")), childkind=e.get("childkind", ""))
+                 smid=_s(e.get("smid", "")), childkind=e.get("childkind", ""),
+                 datatext=_s(json.dumps(e.get("data"))) if e.get("kind") == "event" else "")
     elif k == "ack":
         o.update(conn=e["conn"], ch=e["ch"], tag=e["tag"], multiple=e["multiple"], known=e["known"])
     elif k == "note":
